@@ -358,6 +358,12 @@ func (ri *reflectInspector) checkFunction(fun *ssa.Function) {
 		}
 	}
 
+	// Function literals are not members of the package,
+	// so they are only reachable through the function declaring them.
+	for _, anon := range fun.AnonFuncs {
+		ri.checkFunction(anon)
+	}
+
 	if len(reflectParams) > 0 {
 		if funcName == "" {
 			return
@@ -428,6 +434,9 @@ func (ri *reflectInspector) recordArgReflected(val ssa.Value, visited map[ssa.Va
 		ri.recursivelyRecordUsedForReflect(val.X.Type())
 		return ri.recordArgReflected(val.X, visited)
 	case *ssa.MakeSlice, *ssa.MakeMap, *ssa.MakeChan, *ssa.Const:
+		ri.recursivelyRecordUsedForReflect(val.Type())
+	case *ssa.FreeVar:
+		// A variable captured by a function literal.
 		ri.recursivelyRecordUsedForReflect(val.Type())
 	case *ssa.Global:
 		ri.recursivelyRecordUsedForReflect(val.Type())
